@@ -36,7 +36,7 @@ def gen_cases(seed, tier):
     cases = []
     for i in range(n):
         kind = common.stratum(i, 71, ['tone', 'chirp', 'tone', 'reducers'])
-        P = int(common.pick(rng, [16, 32, 64] + ([128, 256] if tier == 'thorough' else [])))
+        P = int(common.pick(rng, [16, 32, 64, 25, 15, 33] + ([128, 256] if tier == 'thorough' else [])))
         L = int(common.pick(rng, [8, 16, 32, 64] + ([256] if tier == 'thorough' else [])))
         if kind == 'chirp':
             L = int(common.pick(rng, [32, 64] + ([256] if tier == 'thorough' else [])))
